@@ -153,6 +153,15 @@ fn check(def: &DefSpec, run: &mut Run) -> Result<(), String> {
         run.nontrivial(fnv(d.rust.as_bytes()));
     }
     run.sample(|| json!({"definition": d.rust, "accepted": true}));
+    if run.prop == "C12" {
+        // switching an accepted str-mode definition to utf8 = false must keep it acceptable
+        let mut twin = def.clone();
+        twin.utf8 = false;
+        let dt = derive_def(&twin);
+        if dt.panic.is_none() && !dt.errors.is_empty() {
+            return Err(format!("definition accepted in str mode is rejected with utf8 = false: {:?}", dt.errors));
+        }
+    }
     // every pattern
     for (p, variant) in def.leaves() {
         let is_skip = variant.is_none();
